@@ -956,8 +956,8 @@ var flagsFor = map[string]string{
 	"gets":      "esmt",
 	"first":     "esmtfg",
 	"has":       "esmtfghd",
-	"locate":    "esncyomt",
-	"walk":      "esncywat",
+	"locate":    "esnycomt",
+	"walk":      "esnycwat",
 	"nodes":     "esurz",
 	"firstnode": "esurzl",
 }
